@@ -95,6 +95,15 @@ def gen_node(rng, ids, depth: int, cls: int | None = None, may_direct: bool = Tr
                                              for _ in range(rng.choice([1, 2, 2, 3]))]})
             else:
                 node["calls"].append({"t": "forget", "p": gen_node(rng, ids, depth - 1, may_direct=False, lazy_ok=lazy_ok)})
+    for c in node["calls"]:
+        if c["t"] == "single" or (c["t"] == "group" and not c["direct"]):
+            c["reads"] = rng.choice([1, 1, 2, 3])       # results may be read again (no effect in the model)
+    if not node["calls"] and rng.random() < 0.3:
+        # a body that returns None: every constant is 0 and the harness reads None as 0 (values of the model are integers)
+        for a in node["script"] + [node["dflt"]]:
+            if a[0] == "ret":
+                a[1] = 0
+        node["none"] = True
     return node
 
 
@@ -117,9 +126,9 @@ def strip_direct(node: dict) -> dict:
     n = dict(node, direct=False, calls=[])
     for c in node["calls"]:
         if c["t"] == "group":
-            n["calls"].append({"t": "group", "direct": False, "ps": [strip_direct(p) for p in c["ps"]]})
+            n["calls"].append({"t": "group", "direct": False, "ps": [strip_direct(p) for p in c["ps"]], "reads": c.get("reads", 1)})
         else:
-            n["calls"].append({"t": c["t"], "p": strip_direct(c["p"])})
+            n["calls"].append({"t": c["t"], "p": strip_direct(c["p"]), "reads": c.get("reads", 1)})
     return n
 
 
@@ -262,6 +271,8 @@ def run_programs(stack: Stack, progs: list[dict], workers: int = 4, execs: int =
         r["st"], r["token"] = st, token
         try:
             v = tasks.c19_call_root(token, progs[i])
+            if v is None and progs[i].get("none"):
+                v = 0       # a "none" root: None is the encoding of the model's 0
             r["out"] = f"val {v}" if isinstance(v, int) and not isinstance(v, bool) else f"val? {type(v).__name__}"
         except BaseException as e:  # noqa: BLE001 - the outcome of the program
             r["out"] = canon_exc(e)
@@ -586,6 +597,8 @@ def _run(ctx: Ctx, drv: LeanDriver) -> None:
     for c in range(n_conf):
         confs = gen_confs(rng)
         progs = [gen_node(rng, itertools.count(1), rng.choice([0, 1, 1, 2, 2, 3]), lazy_ok=(i % 4 != 0)) for i in range(n_prog * 3)]
+        for p in progs:
+            p["root_reads"] = rng.choice([1, 2, 2])   # the caller of the program reads a successful result again
         families.append((f"random-{c}", confs, progs, sq_random))
 
     stats = Counter()
